@@ -374,3 +374,16 @@ Definition s_AccountDispatchQueue : schema := SSeq [SDictE 64; SUint 48].
 Definition s_BlockInfoPart : schema :=
   SSeq [SUint 32; SBool; SBool; SBool; SBool; SBool; SBool; SBool; SBool; SUint 8; SUint 32; SUint 32;
         s_ShardIdent; SUint 32; SUint 64; SUint 64; SUint 32; SUint 32; SUint 32; SUint 32].
+
+(** *** wallet contracts: persistent data (the data cell of the state-init) and the fixed
+    header of the signed external message body, from the wallet contracts' sources *)
+(* v1/v2: seqno:uint32 public_key:bits256 *)
+Definition s_WalletDataV1V2 : schema := SSeq [SUint 32; SBits 256].
+(* v3: seqno:uint32 subwallet_id:uint32 public_key:bits256 *)
+Definition s_WalletDataV3 : schema := SSeq [SUint 32; SUint 32; SBits 256].
+(* v4: seqno:uint32 subwallet_id:uint32 public_key:bits256 plugins:(HashmapE 264 ...) *)
+Definition s_WalletDataV4 : schema := SSeq [SUint 32; SUint 32; SBits 256; SDictE 264].
+(* highload v2: subwallet_id:uint32 last_cleaned:uint64 public_key:bits256 old_queries:(HashmapE 64 ...) *)
+Definition s_WalletDataHighloadV2 : schema := SSeq [SUint 32; SUint 64; SBits 256; SDictE 64].
+(* v5r1: is_signature_allowed:Bool seqno:uint32 wallet_id:uint32 public_key:bits256 extensions:(HashmapE 256 ...) *)
+Definition s_WalletDataV5R1 : schema := SSeq [SBool; SUint 32; SUint 32; SBits 256; SDictE 256].
